@@ -7,7 +7,8 @@ A tree spec is JSON:  {"top": "repo-2", "entries": {relpath: entry}}  with entry
     {"t": "f", "mode": 0o644, "rand": [seed, size]}     random.Random(seed).randbytes(size)  (incompressible filler)
     {"t": "l", "target": "..."}                         symlink
     {"t": "h", "to": relpath}                           hard link to an earlier regular file of the same archive
-Directories are listed before their content (insertion order is archive order).
+Archive order does not depend on the dict order (a witness may come back from JSON with sorted keys): paths sorted
+(a directory sorts before its content), hard links after everything else.
 """
 
 import bz2
@@ -19,6 +20,11 @@ import random
 import tarfile
 
 COMPRESSIONS = ("gz", "bz2", "xz")
+
+
+def ordered(tree):
+    ent = tree["entries"]
+    return [(r, ent[r]) for r in sorted(ent) if ent[r]["t"] != "h"] + [(r, ent[r]) for r in sorted(ent) if ent[r]["t"] == "h"]
 
 
 def content(e):
@@ -42,7 +48,7 @@ def build_tar(tree):
         ti = info("")
         ti.type, ti.mode = tarfile.DIRTYPE, 0o755
         t.addfile(ti)
-        for rel, e in tree["entries"].items():
+        for rel, e in ordered(tree):
             ti = info(rel)
             if e["t"] == "d":
                 ti.type, ti.mode = tarfile.DIRTYPE, e["mode"]
@@ -98,7 +104,7 @@ def blob_for(tree, comp, how=None):
 def materialise(tree, root):
     """Write a tree spec to disk (used for 'an old tree that was not produced by a sync')."""
     os.makedirs(root, exist_ok=True)
-    for rel, e in tree["entries"].items():
+    for rel, e in ordered(tree):
         p = os.path.join(root, rel)
         if e["t"] == "d":
             os.makedirs(p, exist_ok=True)
